@@ -96,6 +96,20 @@ CHECKS["C10"] = dict(
     technique="symbolic execution of the real classes from an arbitrary symbolic state over enumerated operation sequences (inductive step + bounded histories); identities decided by the canonical linear form / z3",
     design="DESIGN.md section 5 C10")
 
+CHECKS["C08"] = dict(
+    text="Symbolic checking on real PyElastica bodies and real forcing grids: node positions, directors (nine unconstrained entries per element, so every identity proved holds for every rotation), "
+         "velocities, radii, masses and marker forces are solver variables. z3 shows net force = -sum of marker forces for every grid; couples handed to PyElastica = director matrix times the "
+         "lab-frame torque of the element's markers; lab-frame moment balance about a symbolic point; rigid bodies: power of the transferred wrench = -marker power; FlowForces adds into the "
+         "external forces; fluid force integral + body force = 0 for one spread + transfer on a symbolic flow (tolerance 1e-9).",
+    technique="symbolic execution of the real grids + PyElastica helper kernels (from source, allocator proxy) on symbolic poses + z3 polynomial identity queries",
+    design="DESIGN.md section 5 C08")
+CHECKS["C09"] = dict(
+    text="Symbolic checking of compute_lag_grid_position_field / compute_lag_grid_velocity_field of every grid on symbolic poses: marker velocity = element (mass-weighted) or body velocity + "
+         "lab-frame angular velocity x offset (free director entries); surface/edge markers at radius x cap ratio from the element centre (unit-quaternion directors; nlsat); centre markers on the "
+         "centre; nodal grid = node data; body-fixed grids follow a first-order pose advance; sphere markers translate with the centre.",
+    technique="symbolic execution of the real grids on symbolic poses (free or quaternion-parametrised directors) + z3 (nlsat) identity queries",
+    design="DESIGN.md section 5 C09")
+
 NOT_APPLICABLE = {
     "C02": "convergence of whole simulations over resolution families: thousands of time steps of floating-point code on 32^2..128^2 grids; no bound on steps/sizes under which a solver query is still the property (DESIGN.md section 5 C02). Its solver-decidable ingredients are claimed under C01, C03, C05, C16.",
 }
